@@ -127,6 +127,8 @@ def gen_core(rng, **over):
         if rng.random() < o['p_multikey'] and key != '*':
             h['keys'] = [key, '*']
             h['prog'] = gen_prog(rng, o, '*', nb, kind)
+        if key != '*' and rng.random() < 0.3:
+            h['byclass'] = True          # registered with the event class instead of the type name
         sc['handlers'].append(h)
     for x in range(rng.randint(*o['ntasks'])):
         sc['tasks'].append(gen_task(rng, o, nb, x == 0))
